@@ -315,23 +315,19 @@ theorem aChanged_aEx_aChanged (x : Side) (e : Event) (t₁ t₂ : Nat) :
   obtain ⟨oid, path, hash, ex, saved, otype, changed, lg, ign⟩ := x
   cases hacc : e.accurate <;> simp [aChanged, aEx, setEx, hacc] <;> (repeat' split) <;> simp_all
 
-/-- `aEx` applied twice: only the LIKELY_TRASHED rule is not idempotent -/
-theorem aEx_twice (m : Side) (e : Event) :
-    aEx (aEx m e) e = (if m.ex = .trashed ∧ e.ex = some true then { aEx m e with ex := .present } else aEx m e) := by
+/-- `aEx` is idempotent (since fix `pathid-tombstone-erased-by-stale-event`: a tombstone stays LIKELY_TRASHED
+    under repeated "exists" events; before the fix the second delivery turned LIKELY_TRASHED into EXISTS) -/
+theorem aEx_twice (m : Side) (e : Event) : aEx (aEx m e) e = aEx m e := by
   obtain ⟨oid, path, hash, ex, saved, otype, changed, lg, ign⟩ := m
   obtain ⟨eot, eoid, epath, ehash, eex, eacc⟩ := e
   rcases eex with _ | _ | _ <;> cases ex <;> simp [aEx, setEx, translate]
 
-/-- **second delivery of the same event**: the state is the state after one delivery, except in the one case the
-    LIKELY_TRASHED rule creates — the entry was TRASHED (after the event's hash was taken) and the event says
-    "exists": the first delivery yields LIKELY_TRASHED, the second EXISTS (state.py 1009-1015). -/
-theorem applyEvent_twice (s : Side) (e : Event) (t₁ t₂ : Nat) :
-    applyEvent ip norm (applyEvent ip norm s e t₁) e t₂ =
-      (if (pre ip norm s e).ex = .trashed ∧ e.ex = some true ∧ e.raises = false
-       then { applyEvent ip norm s e t₂ with ex := .present } else applyEvent ip norm s e t₂) := by
+/-- **duplicate_event_same_state** (the full DESIGN statement; every provider, no re-read needed): delivering the
+    same event a second time leaves exactly the state of delivering it once (at the later time). -/
+theorem duplicate_event_same_state (s : Side) (e : Event) (t₁ t₂ : Nat) :
+    applyEvent ip norm (applyEvent ip norm s e t₁) e t₂ = applyEvent ip norm s e t₂ := by
   cases hr : e.raises with
   | true =>
-    simp only [Bool.true_eq_false, and_false, if_false]
     rw [applyEvent_raises ip norm s e t₁ hr, applyEvent_raises ip norm s e t₂ hr, applyEvent_raises ip norm _ e t₂ hr]
     have e1 : aOid ip (aType (aOid ip s e) e) e = aType (aOid ip s e) e := by
       cases ho : e.oid with
@@ -348,150 +344,95 @@ theorem applyEvent_twice (s : Side) (e : Event) (t₁ t₂ : Nat) :
     rw [applyEvent_eq ip norm s e t₁ hr, applyEvent_eq ip norm s e t₂ hr, applyEvent_eq ip norm _ e t₂ hr]
     have hp : pre ip norm (aChanged (aEx (pre ip norm s e) e) e t₁) e = aChanged (aEx (pre ip norm s e) e) e t₁ :=
       pre_again ip norm s e t₁ _ (by simp) (by simp) (by simp) (by simp) (by simp)
-    rw [hp]
-    rw [aChanged_aEx_aChanged, aEx_twice]
-    generalize pre ip norm s e = m
-    by_cases hc : m.ex = .trashed ∧ e.ex = some true
-    · have h2 : m.ex = .trashed ∧ e.ex = some true ∧ false = false := ⟨hc.1, hc.2, rfl⟩
-      rw [if_pos hc, if_pos h2]
-      cases hacc : e.accurate <;> simp [aChanged, hacc]
-    · have h2 : ¬ (m.ex = .trashed ∧ e.ex = some true ∧ false = false) := fun h => hc ⟨h.1, h.2.1⟩
-      rw [if_neg hc, if_neg h2]
+    rw [hp, aChanged_aEx_aChanged, aEx_twice]
 
-/- FALSE (kept for the record; DESIGN.md `duplicate_event_same_state`):
-theorem duplicate_event_same_state_raw (s e t₁ t₂) :
-    applyEvent ip norm (applyEvent ip norm s e t₁) e t₂ = applyEvent ip norm s e t₂ -/
-/-- kernel-checked witness: an "exists" event delivered twice to a TRASHED entry: LIKELY_TRASHED, then EXISTS -/
-theorem duplicate_event_raw_differs :
-    let s : Side := { oid := some "/a", path := some "/a", hash := some "h", ex := .trashed, saved := none,
-                      otype := .file, changed := 0, lastGotten := 0, ign := .no }
-    let e : Event := { otype := .file, oid := some "/a", path := some "/a", hash := none, ex := some true }
-    (applyEvent true id s e 3).ex = .likely ∧ (applyEvent true id (applyEvent true id s e 3) e 4).ex = .present := by
-  decide
+/-- any number of further deliveries of the same event -/
+theorem duplicate_event_same_state_n (s : Side) (e : Event) (t : Nat) (ts : List Nat) (tl : Nat) :
+    applyEvents ip norm (applyEvent ip norm s e t) ((ts ++ [tl]).map (fun x => (e, x))) = applyEvent ip norm s e tl := by
+  induction ts generalizing t with
+  | nil => simp [applyEvents, duplicate_event_same_state]
+  | cons x xs ih =>
+    simp only [List.cons_append, List.map_cons, applyEvents]
+    rw [duplicate_event_same_state]
+    exact ih x
 
-
-/-- `get_latest` does not distinguish LIKELY_TRASHED from EXISTS when the provider knows the object -/
-theorem known_present_of_likely (now : Nat) (o : Oid) (info : Info) (b : Side) (hb : b.ex = .likely) :
-    known norm T now o info { b with ex := .present } = known norm T now o info b := by
-  obtain ⟨oid, path, hash, ex, saved, otype, changed, lg, ign⟩ := b
-  simp only at hb
-  subst hb
-  simp [known, kHash, kType, setHash, setEx, touch]
-  (repeat' split) <;> simp_all
-
-/-- … nor does `unconditionally_get_no_info` for an id-stable provider -/
-theorem noInfo_present_of_likely (b : Side) (hb : b.ex = .likely) :
-    noInfo false { b with ex := .present } = noInfo false b := by
-  obtain ⟨oid, path, hash, ex, saved, otype, changed, lg, ign⟩ := b
-  simp only at hb
-  subst hb
-  simp [noInfo, setEx]
-
-/-- `get_latest` as a whole: LIKELY_TRASHED and EXISTS give the same result, except for a path-id provider that
-    no longer knows the id -/
-theorem getLatest_present_of_likely (now : Nat) (b : Side) (hb : b.ex = .likely)
-    (h : ip = false ∨ ∃ o info, b.oid = some o ∧ T.info o = some info) :
-    getLatest ip norm T now { b with ex := .present } = getLatest ip norm T now b := by
-  obtain ⟨oid, path, hash, ex, saved, otype, changed, lg, ign⟩ := b
-  simp only at hb
-  subst hb
-  cases oid with
-  | none =>
-    rcases h with h | ⟨o, info, h, _⟩
-    · simp [getLatest, setEx]
-    · cases h
-  | some o =>
-    cases hT : T.info o with
-    | none =>
-      rcases h with h | ⟨o', info, h, h'⟩
-      · subst h
-        simp only [getLatest, hT]
-        exact noInfo_present_of_likely ⟨some o, path, hash, .likely, saved, otype, changed, lg, ign⟩ rfl
-      · simp only [Option.some.injEq] at h
-        subst h
-        rw [hT] at h'; cases h'
-    | some info =>
-      simp only [getLatest, hT]
-      exact known_present_of_likely norm T now o info ⟨some o, path, hash, .likely, saved, otype, changed, lg, ign⟩ rfl
-
-theorem applyEvent_likely (s : Side) (e : Event) (t : Nat)
-    (h : (pre ip norm s e).ex = .trashed ∧ e.ex = some true ∧ e.raises = false) :
-    (applyEvent ip norm s e t).ex = .likely := by
-  rw [applyEvent_eq ip norm s e t h.2.2]
-  simp only [aChanged_ex]
-  unfold aEx
-  rw [if_pos ⟨h.1, h.2.1⟩]
-  exact setEx_ex_of_ne _ _ (by rw [h.1]; decide) (by decide)
-
-/-- **duplicate_event_same_state_partial** (id-stable providers).  Delivering an event twice and then re-reading the
-    truth gives exactly the state of delivering it once and re-reading — every field, for every state, event and truth. -/
+/-- corollaries in the form the property states them: after the truth is re-read -/
 theorem duplicate_event_same_state_partial (s : Side) (e : Event) (t₁ t₂ now : Nat) :
     getLatest false norm T now (applyEvent false norm (applyEvent false norm s e t₁) e t₂) =
       getLatest false norm T now (applyEvent false norm s e t₂) := by
-  rw [applyEvent_twice]
-  split
-  · rename_i h
-    exact getLatest_present_of_likely false norm T now _ (applyEvent_likely false norm s e t₂ h) (Or.inl rfl)
-  · rfl
+  rw [duplicate_event_same_state]
 
-/-- the same for BOTH id styles when the provider still knows the id the event touched -/
-theorem duplicate_event_same_state_known (s : Side) (e : Event) (t₁ t₂ now : Nat) (o : Oid) (info : Info)
-    (ho : e.oid = some o) (hT : T.info o = some info) :
+theorem duplicate_event_same_state_known (s : Side) (e : Event) (t₁ t₂ now : Nat) :
     getLatest ip norm T now (applyEvent ip norm (applyEvent ip norm s e t₁) e t₂) =
       getLatest ip norm T now (applyEvent ip norm s e t₂) := by
-  rw [applyEvent_twice]
-  split
-  · rename_i h
-    exact getLatest_present_of_likely ip norm T now _ (applyEvent_likely ip norm s e t₂ h)
-      (Or.inr ⟨o, info, applyEvent_oid ip norm s e t₂ o ho, hT⟩)
-  · rfl
+  rw [duplicate_event_same_state]
 
-/-- for a path-id provider and a vanished id the two differ, but only as TRASHED vs MISSING — the same tombstone for
-    every consumer (`Ex.tomb`): all other fields are equal -/
-theorem getLatest_present_of_likely_mod (now : Nat) (b : Side) (hb : b.ex = .likely) :
-    (getLatest ip norm T now { b with ex := .present }).ex.tomb = (getLatest ip norm T now b).ex.tomb ∧
-    { getLatest ip norm T now { b with ex := .present } with ex := .unknown } =
-      { getLatest ip norm T now b with ex := .unknown } := by
-  by_cases h : ip = false ∨ ∃ o info, b.oid = some o ∧ T.info o = some info
-  · rw [getLatest_present_of_likely ip norm T now b hb h]; exact ⟨rfl, rfl⟩
-  · have hip : ip = true := by cases ip <;> simp_all
-    subst hip
-    obtain ⟨oid, path, hash, ex, saved, otype, changed, lg, ign⟩ := b
-    simp only at hb
-    subst hb
-    cases oid with
-    | none => simp [getLatest, setEx]
-    | some o =>
-      cases hT : T.info o with
-      | none => simp [getLatest, hT, noInfo, setEx, Ex.tomb]
-      | some info => exact absurd (Or.inr ⟨o, info, rfl, hT⟩) h
+/-! ### a tombstone survives stale events (fix `pathid-tombstone-erased-by-stale-event`) -/
 
-theorem duplicate_event_same_state_mod_tombstone (s : Side) (e : Event) (t₁ t₂ now : Nat) :
-    let a := getLatest ip norm T now (applyEvent ip norm (applyEvent ip norm s e t₁) e t₂)
-    let b := getLatest ip norm T now (applyEvent ip norm s e t₂)
-    a.ex.tomb = b.ex.tomb ∧ { a with ex := .unknown } = { b with ex := .unknown } := by
-  intro a b
-  simp only [a, b]
-  rw [applyEvent_twice]
-  split
-  · rename_i h
-    exact getLatest_present_of_likely_mod ip norm T now _ (applyEvent_likely ip norm s e t₂ h)
-  · exact ⟨rfl, rfl⟩
+/-- TRASHED or LIKELY_TRASHED -/
+def Ex.isTomb (x : Ex) : Bool := x == .trashed || x == .likely
 
-/- FALSE for a path-id provider and a vanished id (kept for the record):
-theorem duplicate_event_same_state (s e t₁ t₂ now) :
-    getLatest true norm T now (applyEvent true norm (applyEvent true norm s e t₁) e t₂) =
-      getLatest true norm T now (applyEvent true norm s e t₂) -/
-/-- kernel-checked witness (the state-level root of known finding pathid-tombstone-erased-by-stale-event): TRASHED
-    entry of a path-id provider, stale "exists" event for the vanished path: once → TRASHED, twice → MISSING -/
-theorem duplicate_event_pathid_vanished_differs :
-    let s : Side := { oid := some "/a", path := some "/a", hash := some "h", ex := .trashed, saved := none,
-                      otype := .file, changed := 0, lastGotten := 0, ign := .no }
-    let e : Event := { otype := .file, oid := some "/a", path := some "/a", hash := none, ex := some true }
-    let T : Truth := { info := fun _ => none, hashOid := fun _ => none }
-    (getLatest true id T 9 (applyEvent true id s e 3)).ex = .trashed ∧
-    (getLatest true id T 9 (applyEvent true id (applyEvent true id s e 3) e 4)).ex = .missing := by
-  decide
+theorem aEx_tomb (m : Side) (e : Event) (h : m.ex.isTomb = true) : (aEx m e).ex.isTomb = true := by
+  obtain ⟨oid, path, hash, ex, saved, otype, changed, lg, ign⟩ := m
+  obtain ⟨eot, eoid, epath, ehash, eex, eacc⟩ := e
+  rcases eex with _ | _ | _ <;> cases ex <;> simp_all [aEx, setEx, translate, Ex.isTomb]
+
+/-- whatever an event says ("exists", "unknown", "deleted", any path, any hash, any type), it leaves a tombstone a
+    tombstone — unless the entry is a discarded one of a path-id provider, which `update_entry` replaces by a new
+    entry (state.py 986-991) -/
+theorem tombstone_survives_event (s : Side) (e : Event) (t : Nat) (h : s.ex.isTomb = true)
+    (hd : (s.ign.isDiscarded && ip && truthy e.path) = false) : (applyEvent ip norm s e t).ex.isTomb = true := by
+  have h0 : (aOid ip s e).ex = s.ex := by
+    unfold aOid
+    cases e.oid with
+    | none => rfl
+    | some o => simp only [hd, Bool.false_eq_true, if_false]
+  have hne : s.ex ≠ .corrupt := by intro hc; rw [hc] at h; simp [Ex.isTomb] at h
+  cases hr : e.raises with
+  | true => rw [applyEvent_raises ip norm s e t hr]; simpa [h0] using h
+  | false =>
+    rw [applyEvent_eq ip norm s e t hr]
+    simp only [aChanged_ex]
+    apply aEx_tomb
+    unfold pre
+    rw [aHash_ex_of_ne _ _ (by simpa [h0] using hne)]
+    simpa [h0] using h
+
+theorem tombstone_survives_events (s : Side) (es : List (Event × Nat)) (h : s.ex.isTomb = true)
+    (hd : s.ign.isDiscarded = false) : (applyEvents ip norm s es).ex.isTomb = true := by
+  induction es generalizing s with
+  | nil => exact h
+  | cons x xs ih =>
+    have hd' : (s.ign.isDiscarded && ip && truthy x.1.path) = false := by simp [hd]
+    apply ih _ (tombstone_survives_event ip norm s x.1 x.2 h hd')
+    -- the entry stays non-discarded: `applyEvent` keeps `ign` when it does not take the `fresh` branch
+    have : (applyEvent ip norm s x.1 x.2).ign = (aOid ip s x.1).ign := by
+      cases hr : x.1.raises with
+      | true => rw [applyEvent_raises ip norm s x.1 x.2 hr]; simp
+      | false => rw [applyEvent_eq ip norm s x.1 x.2 hr]; simp [pre]
+    rw [this]
+    unfold aOid
+    cases x.1.oid with
+    | none => exact hd
+    | some o => simp only [hd', Bool.false_eq_true, if_false]; exact hd
+
+/-- … and when the provider does not know the id, re-reading the truth turns a tombstone into TRASHED — for BOTH id
+    styles, never MISSING (MISSING is what makes the engine re-create the object from the other side) -/
+theorem noInfo_of_tomb (s : Side) (h : s.ex.isTomb = true) : (noInfo ip s).ex = .trashed := by
+  obtain ⟨oid, path, hash, ex, saved, otype, changed, lg, ign⟩ := s
+  cases ip <;> cases ex <;> simp_all [noInfo, setEx, Ex.isTomb]
+
+/-- **stale_events_cannot_erase_tombstone**: a deleted entry, then ANY sequence of stale events for it, then a re-read
+    of a provider that does not know the id: TRASHED.  (Before the fix: `duplicate_event_pathid_vanished_differs` —
+    two "exists" events, or one "unknown" event, gave MISSING on a path-id provider.) -/
+theorem stale_events_cannot_erase_tombstone (s : Side) (es : List (Event × Nat)) (now : Nat) (o : Oid)
+    (h : s.ex.isTomb = true) (hd : s.ign.isDiscarded = false)
+    (ho : (applyEvents ip norm s es).oid = some o) (hT : T.info o = none) :
+    (getLatest ip norm T now (applyEvents ip norm s es)).ex = .trashed := by
+  unfold getLatest
+  rw [ho]
+  simp only [hT]
+  exact noInfo_of_tomb ip _ (tombstone_survives_events ip norm s es h hd)
 
 /-! ### `get_latest` is idempotent -/
 
@@ -733,10 +674,11 @@ example :
                        hashOid := fun _ => none }
     let r := getLatest false id T 9 (applyEvent false id s e 5)
     s.ex ≠ .corrupt ∧ T.HashConsistent ∧ (applyEvent false id s e 5).ex = .likely ∧
+    (applyEvent false id (applyEvent false id s e 5) e 6).ex = .likely ∧ s.ex.isTomb = true ∧
     r.path = some "/r/b" ∧ r.hash = some "h2" ∧ r.ex = .present ∧
     processEvent [s] { e with oid := none } false = .dropped ∧
     processEvent [s] { e with hash := some "h1", path := some "/r/a" } true = .walkNoop := by
-  refine ⟨by decide, ?_, by decide, by decide, by decide, by decide, by decide, by decide⟩
+  refine ⟨by decide, ?_, by decide, by decide, by decide, by decide, by decide, by decide, by decide, by decide⟩
   intro o info h1 h2 h3
   rfl
 
